@@ -348,6 +348,29 @@ func c13Run(c *mon.Ctx) {
 			bases = append(bases, w)
 		}
 	}
+	// rules that use 62, 63 and all 64 field slots (with and without strings): a wrong field-count word in such
+	// an image leaves no zero slot behind it for the decoder to stumble over
+	for _, nf := range []int{62, 63, 64} {
+		for _, withKey := range []bool{false, true} {
+			sr := &rule.SyscallRule{Type: rule.AppendSyscallRuleType, List: "exit", Action: "always"}
+			n := nf
+			if withKey {
+				n--
+				sr.Keys = []string{"full"}
+			}
+			for i := 0; i < n; i++ {
+				f := rule.FilterSpec{Type: rule.ValueFilterType, LHS: "pid", Comparator: "!=", RHS: fmt.Sprint(1000 + i)}
+				if i%9 == 4 {
+					f = rule.FilterSpec{Type: rule.ValueFilterType, LHS: "exe", Comparator: "!=", RHS: fmt.Sprintf("/bin/x%d", i)}
+				}
+				sr.Filters = append(sr.Filters, f)
+			}
+			if w, err := rule.Build(sr); err == nil {
+				bases = append(bases, w)
+				c.Add("base_rules_using_62_to_64_field_slots", 1)
+			}
+		}
+	}
 	setFault := func() { debug.SetPanicOnFault(true) }
 
 	// (b1) every header word x boundary values
